@@ -1,5 +1,5 @@
 SPECIFICATION Spec
 CONSTANTS
-  Families = {"A1", "B", "C1", "E"}
+  Families = {"A1", "B", "C0", "E", "K"}
 PROPERTY DescriptionTrue
 CHECK_DEADLOCK FALSE
